@@ -121,3 +121,227 @@ def c01(tier):
     chk.assumptions = ['TLC', 'FMLSource is the README (self-tested on the in-repo corpus with expected outputs)', 'the AST normalization norm.rs / the Python unparser']
     rm(wd)
     return chk.finish()
+
+
+# ------------------------------------------------------------------------------------------------ C12
+from gen import *
+from unparse import unparse, strip_marks
+
+
+def scope_ast(toks, context, prelude):
+    """prefix-notation statement sequence (from MC_Scope) -> program AST in the given context"""
+    k = [0]
+    pos = [0]
+
+    def lit():
+        k[0] += 1
+        return I(k[0])
+
+    def stmt():
+        t = toks[pos[0]]
+        pos[0] += 1
+        if t == 'letx': return Let('x', lit())
+        if t == 'lety': return Let('y', lit())
+        if t == 'setx': return Asg('x', lit())
+        if t == 'sety': return Asg('y', lit())
+        if t == 'readx': return Pr('x=~\\n', [V('x')])
+        if t == 'ready': return Pr('y=~\\n', [V('y')])
+        if t == 'callf': return Call('f', [])
+        if t == 'callm': return MC(V('o'), 'm', [])
+        if t == 'begin':
+            es = []
+            while toks[pos[0]] != 'end':
+                es.append(stmt())
+            pos[0] += 1
+            return Blk(es)
+        if t == 'ift':
+            return If(B(True), stmt())
+        if t == 'iff':
+            a = stmt()
+            b = stmt()
+            return If(B(False), a, b)
+        if t == 'wh':
+            return Wh(Call('once', []), stmt())
+        raise ValueError(t)
+    body = []
+    while pos[0] < len(toks):
+        body.append(stmt())
+    helpers = [Let('flag', I(0)),
+               Fun('once', [], Blk([Asg('flag', Op('+', V('flag'), I(1))), Op('==', Op('%', V('flag'), I(2)), I(1))])),
+               Fun('f', [], Blk([Pr('f:~\\n', [V('x')]), Asg('x', I(900)), V('y')])),
+               Let('o', Obj(N(), [Fun('m', [], Blk([Pr('m:~\\n', [V('y')]), Asg('y', I(800)), V('x')]))]))]
+    pre = ([Let('x', I(100)), Let('y', I(200))] if prelude else []) + helpers
+    end = [Pr('end ~ ~\\n', [V('x'), V('y')])]
+    if context == 'top':
+        es = pre + body + end
+    elif context == 'block':
+        es = pre + [Blk(body)] + end
+    elif context == 'fun':
+        es = pre + [Fun('g', [], Blk(body)), Call('g', [])] + end
+    else:
+        es = pre + [Let('h', Obj(N(), [Fun('g', [], Blk(body))])), MC(V('h'), 'g', [])] + end
+    return Top(es)
+
+
+CONTEXTS = [(c, p) for c in ('top', 'block', 'fun', 'meth') for p in (True, False)]
+
+
+def c12(tier):
+    chk = Check('C12', tier)
+    maxlen = tier_sizes(tier, 3, 5)
+    chk.rule = ('TLC enumerates on the fly every statement sequence (MC_Scope: let/assign/read of x and y, call f, call o.m, begin/end to depth 2, if-true, if-false-else, '
+                'while-once) up to %d statements; each is placed at top level, in a top-level block, in a function body and in a method body, with and without global x, y '
+                '(all 8 placements up to length %d, one placement round-robin beyond), written literals numbered; TLC runs the README semantics FMLSource on the AST (scope '
+                'stack, LeaveRestores and CallIsolated checked in every state) and the real pipeline must print the same values and stop at the same point. '
+                'distinct_nontrivial = distinct programs judged inside the fragment.' % (maxlen, 4 if tier == 'thorough' else 3))
+    exe = build('debug')
+    wd = scratch('c12')
+    r = tlc_or_die('MC_Scope', env={'MAXLEN': str(maxlen)}, workers=8, timeout=1800)
+    chk.add_tlc(r)
+    seqs = [g['toks'] for g in r.lines.get('REPLAY', [])]
+    seqs.sort(key=lambda t: (len(t), t))
+    chk.notes['statement_sequences_enumerated'] = len(seqs)
+    progs = []
+    full_len = 4 if tier == 'thorough' else 3
+    for si, toks in enumerate(seqs):
+        nst = len([t for t in toks if t != 'end'])
+        places = CONTEXTS if nst <= full_len else [CONTEXTS[si % len(CONTEXTS)]]
+        for (c, p) in places:
+            ast = scope_ast(toks, c, p)
+            progs.append({'name': 'scope:%s/%s/%s' % (' '.join(toks), c, 'globals' if p else 'noglobals'), 'text': unparse(ast), 'ast': strip_marks(ast)})
+    chk.notes['programs'] = len(progs)
+    chunk = 20000
+    agg = {'done': 0, 'fail': 0, 'reject': 0}
+    for b in range(0, len(progs), chunk):
+        part = progs[b:b + chunk]
+        outs, vs = judge_programs(chk, exe, part, wd, 'c12_%d' % b, budget=3000)
+        for v in vs.values():
+            if v['frag'] and v['st'] in agg:
+                agg[v['st']] += 1
+        if b == 0:
+            for i in (len(part) // 2, len(part) - 1):
+                if i in vs:
+                    st, out = srctrace.status_of(outs[i])
+                    chk.sample({'program': part[i]['name'], 'source': part[i]['text'], 'prescribed': vs[i]['st'], 'observed': st, 'out': bytes(out).decode('utf-8', 'replace')})
+    chk.notes['prescribed_outcomes_inside_fragment'] = agg
+    chk.exhaustive = True
+    chk.notes['exhaustive_scope'] = 'all statement sequences of the MC_Scope grammar up to the stated length, in the stated placements'
+    chk.assumptions = ['TLC', 'FMLSource scoping rules (DESIGN §3.7)', 'the token-to-AST conversion of the driver (structural only)']
+    rm(wd)
+    return chk.finish()
+
+
+# ------------------------------------------------------------------------------------------------ C13
+SIG = {'call0': [], 'call1': ['int'], 'call2': ['int'] * 2, 'call3': ['int'] * 3, 'mcall': ['obj', 'int', 'int'], 'op': ['int', 'int'], 'cmp': ['int', 'int'],
+       'obj0': ['par'], 'obj1': ['par', 'int'], 'obj2': ['par', 'int', 'int'], 'obj3': ['par', 'int', 'int', 'int'],
+       'arrs': ['size'], 'arrc0': ['size0', 'int'], 'arrc1': ['size1', 'int'], 'arrc2': ['size2', 'int'], 'arrc3': ['size3', 'int'],
+       'index': ['arr', 'idx'], 'setindex': ['arr', 'idx', 'int'], 'getfield': ['obj'], 'setfield': ['obj', 'int'], 'if': ['bool', 'int', 'int'],
+       'print0': [], 'print1': ['int'], 'print2': ['int'] * 2, 'print3': ['int'] * 3, 'while0': [], 'while1': [], 'while2': [], 'let': ['int'], 'assign': ['int']}
+METHOD_M = lambda: Fun('m', ['a', 'b'], Blk([Pr('m;'), Op('-', V('a'), V('b'))]))
+
+
+def evalorder_ast(shape):
+    """prefix-notation shape (from MC_EvalOrder) -> program; markers numbered in textual order"""
+    pos = [0]
+    mark = [0]
+
+    def leaf(kind, tok):
+        mark[0] += 1
+        k = mark[0]
+        if kind == 'bool':
+            v = B(tok == 'T')
+        elif kind == 'arr':
+            v = Arr(I(2), I(0))
+        elif kind == 'obj':
+            v = Obj(N(), [Let('f', I(1)), METHOD_M()])
+        elif kind == 'par':
+            v = N()
+        elif kind.startswith('size'):
+            v = I(int(kind[4:]) if len(kind) > 4 else 2)
+        elif kind == 'idx':
+            v = I(0)
+        else:
+            v = I(10 + k)
+        return Blk([Pr('%d;' % k), v])
+
+    def term(kind):
+        tok = shape[pos[0]]
+        pos[0] += 1
+        if tok in ('L', 'T', 'F'):
+            return leaf(kind, tok)
+        args = [term(k) for k in SIG[tok]]
+        return build(tok, args)
+
+    def build(c, a):
+        if c.startswith('call'):
+            return Call('f' + c[4:], a)
+        if c == 'mcall':
+            return MC(a[0], 'm', a[1:])
+        if c == 'op':
+            return Op('-', a[0], a[1])
+        if c == 'cmp':
+            return Op('<=', a[0], a[1])
+        if c.startswith('obj'):
+            return Obj(a[0], [Let('f', I(1))] + [Let('g%d' % i, x) for i, x in enumerate(a[1:])] + [METHOD_M()])
+        if c == 'arrs':
+            return Arr(a[0], I(7))
+        if c.startswith('arrc'):
+            return Arr(a[0], a[1])
+        if c == 'index':
+            return Ix(a[0], a[1])
+        if c == 'setindex':
+            return SIx(a[0], a[1], a[2])
+        if c == 'getfield':
+            return GF(a[0], 'f')
+        if c == 'setfield':
+            return SF(a[0], 'f', a[1])
+        if c == 'if':
+            return If(a[0], a[1], a[2])
+        if c.startswith('print'):
+            return Pr(' '.join(['~'] * len(a)) + ';', a)
+        if c.startswith('while'):
+            kk = int(c[5:])
+            return Blk([Asg('n', I(0)), Wh(Blk([Pr('c;'), Op('<=', Asg('n', Op('+', V('n'), I(1))), I(kk))]), Blk([Pr('b;'), V('n')]))])
+        if c == 'let':
+            return Let('z', a[0])
+        if c == 'assign':
+            return Asg('n', a[0])
+        raise ValueError(c)
+    e = term('any')
+    prelude = [Let('n', I(0)),
+               Fun('f0', [], Blk([Pr('f0;'), I(10)])), Fun('f1', ['a'], Blk([Pr('f1;'), V('a')])),
+               Fun('f2', ['a', 'b'], Blk([Pr('f2;'), Op('-', V('a'), V('b'))])),
+               Fun('f3', ['a', 'b', 'c'], Blk([Pr('f3;'), Op('-', Op('-', V('a'), V('b')), V('c'))]))]
+    return Top(prelude + [Pr(' R=~\\n', [e])])
+
+
+def c13(tier):
+    chk = Check('C13', tier)
+    chk.rule = ('TLC enumerates all typed expression shapes to depth 2 (MC_EvalOrder: calls with 0-3 arguments, method call, operators, object with parent and 0-3 fields, '
+                'array(size, constant), array(size 0-3, compound), index, indexed and field assignment, if, while with 0-2 iterations, print 0-3, let, assign); every operand '
+                'position holds a numbered marker begin print("k;"); v end or a nested shape; the printed marker sequence (order and multiplicity) prescribed by FMLSource, '
+                'run by TLC, must equal what the real pipeline prints. Quick: all shapes with at most one nested operand + a 1/24 stride of the rest; thorough: all. distinct_nontrivial = distinct shapes judged.')
+    exe = build('debug')
+    wd = scratch('c13')
+    r = tlc_or_die('MC_EvalOrder', workers=8, timeout=1800)
+    chk.add_tlc(r)
+    shapes = [g['shape'] for g in r.lines.get('REPLAY', [])]
+    shapes.sort(key=lambda s: (len(s), s))
+    chk.notes['shapes_enumerated'] = len(shapes)
+    if tier != 'thorough':
+        nested = lambda s: len([t for t in s[1:] if t not in ('L', 'T', 'F')])
+        few = [s for s in shapes if nested(s) <= 1]          # all shapes with at most one nested operand
+        rest = [s for s in shapes if nested(s) > 1]
+        shapes = few + rest[(seed() % 24)::24]
+    progs = []
+    for s in shapes:
+        ast = evalorder_ast(s)
+        progs.append({'name': 'order:' + ' '.join(s), 'text': unparse(ast), 'ast': strip_marks(ast)})
+    outs, vs = judge_programs(chk, exe, progs, wd, 'c13', budget=3000)
+    for i in (0, len(progs) // 2, len(progs) - 1):
+        st, out = srctrace.status_of(outs[i])
+        chk.sample({'program': progs[i]['name'], 'source': progs[i]['text'][progs[i]['text'].find('print ( " R='):][:400], 'marker_sequence': bytes(out).decode('utf-8', 'replace')})
+    chk.exhaustive = (tier == 'thorough')
+    chk.assumptions = ['TLC', 'FMLSource evaluation order = the README rules (left to right; compound array initializer per element; constant initializers once)']
+    rm(wd)
+    return chk.finish()
